@@ -24,6 +24,7 @@ def heck_snake_py(_):
 def render_structs(k, it: Item, meta, cfg, strum_path="strum"):
     derives = list(meta.get("derives", []))
     dl = ["%s::%s" % (strum_path, d) if d in S.STRUM_DERIVES else d for d in derives]
+    dl += ["%s::%s" % (strum_path, d) for d in meta.get("silent_derives", [])]
     for std in meta.get("std_derives", ["Debug", "Clone", "PartialEq"]):
         if std not in dl:
             dl.append(std)
